@@ -35,11 +35,15 @@ def gen_cases(ctx, n):
     while len(cases) < n:
         role = r.choice(['server', 'client'])
         framing = r.choice(['tcp', 'rtu'])
-        data, desc = fg.stream(r, role, framing)
+        fc, lead = fg.client_request(r) if role == 'client' else (3, [])
+        data, desc = fg.stream(r, role, framing, reply_fc=fc)
         chunks = fg.chunk(r, data)
         if not chunks:
             continue
-        cases.append(f'{role} {framing} {r.choice(levels)} ' + ' '.join(fg.tokens(r, role, chunks)))
+        toks = fg.tokens(r, role, chunks)
+        if role == 'client':
+            toks = lead + fg.with_drop(r, toks)
+        cases.append(f'{role} {framing} {r.choice(levels)} ' + ' '.join(toks))
     return cases
 
 
@@ -264,6 +268,10 @@ def run(ctx):
         if o.startswith('ok'):
             kv = dict(x.split('=', 1) for x in o.split()[1:])
             cls = f'{role}/{framing}/end={kv["end"]}'
+            if '@X' in c:
+                classes['request-future-dropped'] = classes.get('request-future-dropped', 0) + 1
+            if '@Qw' in c:
+                classes['write-request-outstanding'] = classes.get('write-request-outstanding', 0) + 1
             if '@W' in c:
                 classes['scripted-transmit-side'] = classes.get('scripted-transmit-side', 0) + 1
                 if '@Wb' in c and '@R' not in c:
